@@ -103,6 +103,46 @@ pub(crate) fn c08_packer_add_raw() {
     std::mem::forget(p);
 }
 
+//@ harness: c08_packer_second_pack
+//@ prop: C08 C07
+//@ tier: quick
+//@ timeout: 900
+//@ mem: 12
+//@ kernel: BasicPacker::{new, add_raw, write_data, has, take_data}, IndexPack::{add, pack_size}, PackHeaderRef::{from_index_pack, pack_size}, PackSizer::add_size
+//@ bound: one packer instance across a pack boundary: add_raw (3 symbolic bytes), take_data (pack flushed), add_raw (2 symbolic bytes); ids symbolic in a 3-element domain (the second blob may repeat the id of the flushed one: it must be stored again, the open pack no longer has it); symbolic uncompressed lengths; unwind 34
+//@ oracle: take_data hands back exactly the flushed pack (one part of 3 bytes; index: the blob at offset 0, length 3) and leaves an empty packer (size 0, count 0, empty index and file); the next pack's first blob is indexed at offset 0 with its own length - offsets never carry over from an earlier pack of the same packer (the trailer stores lengths only, so repair-index recomputes offsets from 0)
+//@ stub: SystemTime::now; Backtrace::capture
+//@ assume: blobs are non-empty
+//@ outside: write_header accounting (c08_packer_header_and_take, experimental), the binrw byte encoding of header entries, the threaded Actor, repair_index
+#[kani::proof]
+#[kani::unwind(34)]
+#[kani::stub(std::time::SystemTime::now, crate::error::verif_harness::stub_systime_now)]
+#[kani::stub(std::backtrace::Backtrace::capture, crate::error::verif_harness::stub_backtrace_capture)]
+pub(crate) fn c08_packer_second_pack() {
+    let mut p = BasicPacker::new(BlobType::Data, PackSizer::fixed(kani::any()));
+    let d0: &'static mut [u8; 3] = Box::leak(Box::new(kani::any()));
+    let d1: &'static mut [u8; 2] = Box::leak(Box::new(kani::any()));
+    let (i0, i1): (u8, u8) = (kani::any(), kani::any());
+    kani::assume(i0 < 3 && i1 < 3);
+    let (u0, u1): (u32, u32) = (kani::any(), kani::any());
+    p.add_raw(Bytes::from_static(&*d0), &bid(i0), 3, NonZeroU32::new(u0)).unwrap();
+    let (file, index) = p.take_data();
+    assert!(file.slice().len() == 1 && file.slice()[0].len() == 3 && file.size() == 3);
+    assert!(index.blobs.len() == 1 && index.blobs[0].id == bid(i0));
+    assert!(index.blobs[0].location == BlobLocation { offset: 0, length: 3, uncompressed_length: NonZeroU32::new(u0) });
+    assert!(p.size == 0 && p.count == 0 && p.index.blobs.is_empty() && p.file.slice().is_empty());
+    assert!(!p.has(&bid(i0)));
+    p.add_raw(Bytes::from_static(&*d1), &bid(i1), 2, NonZeroU32::new(u1)).unwrap();
+    let blobs = &p.index.blobs;
+    assert!(blobs.len() == 1 && blobs[0].id == bid(i1) && blobs[0].tpe == BlobType::Data);
+    assert!(blobs[0].location == BlobLocation { offset: 0, length: 2, uncompressed_length: NonZeroU32::new(u1) });
+    assert!(p.size == 2 && p.count == 1);
+    assert!(p.file.slice().len() == 1 && p.file.slice()[0].len() == 2);
+    kani::cover!(i0 == i1, "the flushed blob's id is added again to the next pack");
+    kani::cover!(i0 != i1, "a different blob opens the next pack");
+    std::mem::forget(file); std::mem::forget(index); std::mem::forget(p);
+}
+
 //@ harness: c08_packer_header_and_take
 //@ prop: C08 C07
 //@ tier: experimental
